@@ -5,6 +5,7 @@
    acquired, method), so that every broken element yields its own tag:
        unguarded:<method>:<table>    reacquire:<method>:<mutex>
        lockorder:<method>:<held>><acquired>    calls:<method>:<what>    duplicate-method
+       held-at-return:<method>:<mutex>   unlock-not-held:<method>:<mutex>   deferred-unlock-not-held:<method>
    Dynamic cases: a pair of store methods hammered from goroutines under the race detector;
    [raced] is what the detector reported, [in_store] whether both racing accesses are inside
    methods of the store (storage/memory.go). *)
@@ -29,6 +30,9 @@ Definition sel_acquire (meth m : string) (f : fact) : bool :=
   match f with FAcq me x _ _ => String.eqb me meth && String.eqb x m | _ => false end.
 Definition sel_calls (meth : string) (f : fact) : bool :=
   match f with FErr me _ => String.eqb me meth | _ => false end.
+(* return points and explicit unlocks of a method: is everything the method locked released? *)
+Definition sel_return (meth : string) (f : fact) : bool :=
+  match f with FRet me _ _ | FRel me _ _ => String.eqb me meth | _ => false end.
 
 (* ------------------------------------------------------------------ schedule cases
    Two or three API operations run on the real provider over one MemoryStore; the harness lets
@@ -129,6 +133,26 @@ Fixpoint invalidated_later (kd : tkind) (k : nat) (calls : list scall) : option 
               end
   end.
 
+(* Revocation is effective for EVERY access token of the request (repaired store, 208b00a): an
+   access token created under request id r and followed, later in the log, by RevokeAccessToken r
+   must be dead at the end, whichever token of the request the index happens to point to.
+   None: never created; Some b: created, b = a later RevokeAccessToken of its request id exists *)
+Definition revokes_at (rid : nat) (c : scall) : bool :=
+  match c with VAt r' => Nat.eqb r' rid | _ => false end.
+Fixpoint revoked_later (k : nat) (calls : list scall) : option bool :=
+  match calls with
+  | [] => None
+  | c :: r => match creates TAccess k c with
+              | Some rid => Some (existsb (revokes_at rid) r)
+              | None => revoked_later k r
+              end
+  end.
+Definition revoked_dead (calls : list scall) (m : tkind * nat * bool) : bool :=
+  match m with
+  | (TAccess, k, true) => match revoked_later k calls with Some true => false | _ => true end
+  | _ => true
+  end.
+
 Definition minted_ok (calls : list scall) (m : tkind * nat * bool) : bool :=
   let '(kd, k, alive) := m in
   match invalidated_later kd k calls with
@@ -143,6 +167,7 @@ Definition sched_mon (clients : list nat) (log : list entry) (digest : cstore)
   else if negb (distinct_creates calls) then Some "duplicate-signature"
   else if negb (cstore_eqb (replay clients cs0 calls) digest) then Some "final-state-not-sequential"
   else if negb (forallb (minted_ok calls) minted) then Some "token-dead-without-invalidation"
+  else if negb (forallb (revoked_dead calls) minted) then Some "revoked-access-token-alive"
   else None.
 
 Definition sched_corr (clients : list nat) (log : list entry) (digest : cstore)
@@ -159,18 +184,24 @@ Inductive c19case :=
 | KAccess (ms : list method) (meth tbl : string)
 | KAcquire (ms : list method) (meth m : string)
 | KCalls (ms : list method) (meth : string)
+| KReturn (ms : list method) (meth : string)
 | KNames (ms : list method)
 | KPair (ms : list method) (f g : string) (raced in_store : bool)
 | KSched (clients : list nat) (log : list entry) (digest : cstore) (minted : list (tkind * nat * bool)) (panics : nat)
 | KStress (config site1 site2 : string)     (* a pair of call sites the race detector reported under free-running load *)
 | KStressClean (config : string) (requests : nat)
-| KApi (scenario site1 site2 : string).     (* a race reported while the operations of one scenario ran free *)
+| KApi (scenario site1 site2 : string)      (* a race reported while the operations of one scenario ran free *)
+| KLeak (meth mutex : string)               (* after a sequential call of meth the store's mutex could not be taken any more *)
+| KHung (what : string)                     (* a store call (or a pair of calls from two goroutines) did not return *)
+| KLeakClean (sequences : nat)
+| KTranslator (msg : string).               (* the source contains a shape outside the translator's fragment: nothing static was checked *)
 
 Definition check (c : c19case) : verdict :=
   match c with
   | KAccess ms meth tbl => V None (find_tag (sel_access meth tbl) ms)
   | KAcquire ms meth m => V None (find_tag (sel_acquire meth m) ms)
   | KCalls ms meth => V None (find_tag (sel_calls meth) ms)
+  | KReturn ms meth => V None (find_tag (sel_return meth) ms)
   | KNames ms => V None (if names_unique ms then None else Some "duplicate-method")
   | KPair ms f g raced in_store =>
       V (if raced && in_store then
@@ -187,4 +218,8 @@ Definition check (c : c19case) : verdict :=
   | KStress config a b => V None (Some ("stress-race:" ++ a ++ "|" ++ b))
   | KStressClean _ _ => V None None
   | KApi sc a b => V None (Some ("race-api:" ++ a ++ "|" ++ b))
+  | KLeak meth mutex => V None (Some ("lock-leaked:" ++ meth ++ ":" ++ mutex))
+  | KHung what => V None (Some ("store-call-hung:" ++ what))
+  | KLeakClean _ => V None None
+  | KTranslator msg => V (Some ("translator: " ++ msg)) None
   end.
